@@ -51,3 +51,36 @@ Proof. vm_compute. reflexivity. Qed.
 Example out_lengths :
   map (fun v => length (hash v [])) [blake224; blake256; blake384; blake512] = [28; 32; 48; 64]%nat.
 Proof. vm_compute. reflexivity. Qed.
+
+(** * The one-vs-two final block boundary (55 / 56 / 64 bytes for BLAKE-224/256, 111 / 112 / 128 for
+      BLAKE-384/512): 55 resp. 111 bytes end in one block whose marker byte is 0x81; 56 / 64 resp.
+      112 / 128 bytes need a second block that is padding only and is compressed with t = 0.
+      NOT published vectors: cross-implementation values from a reference implementation written
+      independently of this specification and of the crate (by the auditor of this development; it also
+      reproduces all published vectors above). Messages are n bytes 0xff. *)
+Definition ffs (n : nat) : list N := repeat 0xff n.
+
+Example blake256_boundary_cross :
+  map (fun n => be_join (hash blake256 (ffs n))) [55; 56; 64]%nat =
+    [0xd806c129c0a95654d746419667a9f0878da9cc5d55d77e3e22df7c1b12176010;
+     0x6b573a7fa4bac4924ee40c1160d401843488828037ba13f0a82cce8fc841c3e6;
+     0x80a0ace8b131870da8de11bca85a811f44ece342c57cb8cd5567d2a33685b5be].
+Proof. vm_compute. reflexivity. Qed.
+Example blake224_boundary_cross :
+  map (fun n => be_join (hash blake224 (ffs n))) [55; 56; 64]%nat =
+    [0x5a0f6dcd0e2ebb236675cfdef8013f2eaea713d63333d6c0716666d8;
+     0xa77de60c6275c12720399aa6c37f1694d2ef591f064b5d02b99c6ac5;
+     0xa83cb960f1afcbdcf2d493e145fa89a5c807a09a42fcbc4f3749a654].
+Proof. vm_compute. reflexivity. Qed.
+Example blake512_boundary_cross :
+  map (fun n => be_join (hash blake512 (ffs n))) [111; 112; 128]%nat =
+    [0x6c8fb5a0d0ccb348284234baf7d9306d850652205cf891e92026eb27e8660c62045c62e7a0c2860fc6ccb793cdaa34e40a4a8c12f1c32414ee9e766691a8195e;
+     0x1e196c0fe8012ce859013b35f7f33b62d1e71e71c6e4e7b9d6100d7bce9b6ed106614b4fd08230605c452275ca8fa88e48d3dbc1fdcd8b6a85861937e2d6da37;
+     0x02398332482e4c82dde58b0d9085ac1ced7cd48f167e98d6bcb1dc66531473c0efe85cebfbbc83af9e70381e4c086925facc22350613879c8287d46e9e53d388].
+Proof. vm_compute. reflexivity. Qed.
+Example blake384_boundary_cross :
+  map (fun n => be_join (hash blake384 (ffs n))) [111; 112; 128]%nat =
+    [0x25e264fb88fae5aa62967d3275f1f8a932fdd9f717e42e91e6c8c2293d7ede5a9b7afe2841892648a6f5b215d94f2f6b;
+     0x9770fe18993d6582952c1d137981a4f32c31270b0104d0da65d4e2306db38931901614b03a7bbd67c0835bb8e8e1b63a;
+     0x88eb477dbf877a052ce95347bab16c72ef6cb4b0823eb09d6f1f38417db54891fc4407c2015137ecbfeaa632889484d8].
+Proof. vm_compute. reflexivity. Qed.
